@@ -91,6 +91,16 @@ theorem assignSuffix_none (span : Position × Position) (cs : Comments) (hs : cs
   · rw [takeSuffix_stop _ _ _ hP]
     simp
 
+theorem assignSuffix_skip (span : Position × Position) (cs : Comments) (hs : cs.suffix = [])
+    (hl : span.1.line ≠ span.2.line) (L : List Comment) : assignSuffix span cs L = (cs, L) := by
+  cases cs
+  simp only at hs
+  subst hs
+  unfold assignSuffix
+  have : (span.1.line != span.2.line) = true := by simpa using hl
+  rw [if_pos this]
+  simp
+
 theorem assignSuffix_take (span : Position × Position) (cs : Comments) (hs : cs.suffix = [])
     (hl : span.1.line = span.2.line) (c : Comment) (hc : span.2.byte ≤ c.start.byte) (P : List Comment)
     (hP : Below P span.2.byte) : assignSuffix span cs (P ++ [c]).reverse = ({ cs with suffix := [c] }, P.reverse) := by
@@ -550,16 +560,7 @@ theorem postStmt_E (s : Expr) (R : Bytes) (P : List Comment) (hwf : EWFStmt s) (
         (P ++ (sufC D b.lparen.comments.suffix X ++ linesC D b.lines Z)) ++ sufC D (rsOf b) R := by simp
     rw [hreassoc]
     -- block node
-    rw [show assignSuffix (pa D (tokStr b.token [] ++ 32 :: 40 :: sufB b.lparen.comments.suffix X),
-          (pa D (41 :: sufB (rsOf b) R)).add1)
-          ({ before := befC D 0 b.comments.before (tokStr b.token [] ++ 32 :: 40 :: sufB b.lparen.comments.suffix X) } : Comments)
-          ((P ++ (sufC D b.lparen.comments.suffix X ++ linesC D b.lines Z)) ++ sufC D (rsOf b) R).reverse =
-        (({ before := befC D 0 b.comments.before (tokStr b.token [] ++ 32 :: 40 :: sufB b.lparen.comments.suffix X) } : Comments),
-          ((P ++ (sufC D b.lparen.comments.suffix X ++ linesC D b.lines Z)) ++ sufC D (rsOf b) R).reverse) from by
-      unfold assignSuffix
-      have : ((pa D (tokStr b.token [] ++ 32 :: 40 :: sufB b.lparen.comments.suffix X)).line !=
-          (pa D (41 :: sufB (rsOf b) R)).add1.line) = true := by simpa using hskip
-      simp [this]]
+    rw [assignSuffix_skip _ _ rfl hskip]
     simp only
     rw [hrp]
     simp only
